@@ -9,10 +9,10 @@ CONSTANTS
   Kinds = {"over", "under"}
   Rfs = {1, 2}
   Isos = {FALSE}
-  Skips = {FALSE, TRUE}
-  Bads = {{}, {1}, {2}, {1, 2}, {2, 3}}
+  Skips = {FALSE}
+  Bads = {{}, {1}}
   Longs = {FALSE, TRUE}
   RootSet = {0}
-  Transforms = {"none"}
+  Transforms = {"keep", "head", "tail"}
 INVARIANTS MCTypeOK MCSound MCSoundSkip MCComplete MCCompleteSkip MCNeverSplit MCBadAlone MCOthersUnaffected MCFilterHonoured
 CHECK_DEADLOCK FALSE
